@@ -410,6 +410,34 @@ def run(ctx):
                               f"{' (per-request streams registered for their ids)' if registered else ''}: the read stream carried "
                               f"{len(got)} of {len(want)} messages once reading resumed", case)
             ctx.record(case, shape=len(got), nontrivial=True, cls="busy_application", sample={"case": case, "delivered": len(got), "written": len(wires)})
+    # a server that writes its last answers and exits at once: what it wrote before exiting is still to be read when the
+    # process object already knows the exit status - every line must be delivered all the same
+    for k, (n_msgs, chunk) in enumerate([(3, 0), (40, 0), (600, 4099), (600, 65536)] if ctx.tier == "quick"
+                                        else [(3, 0), (40, 0), (600, 4099), (600, 65536), (4000, 65536), (4000, 4099)]):
+        if not ctx.mine():
+            continue
+        wires = []
+        for i in range(n_msgs):
+            wires.append({"jsonrpc": "2.0", "id": i, "result": {"n": i, "t": TEXTS[i % len(TEXTS)], "pad": "x" * 100}} if i % 5 else
+                         {"jsonrpc": "2.0", "method": "notifications/message", "params": {"level": "info", "data": i}})
+        stream = b"".join((json.dumps(w, ensure_ascii=False) + "\n").encode("utf-8") for w in wires)
+        pieces = [stream] if not chunk else [stream[j:j + chunk] for j in range(0, len(stream), chunk)]
+        case = {"child_exits_with_unread_output": True, "messages": n_msgs, "chunk": chunk}
+        steps = [("feed", pc) for pc in pieces] + [("child_exits", 0), ("settle",), ("wait", 0.5), ("settle",)]
+        try:
+            out = run_stdio_script(steps)
+        except Exception as e:  # noqa
+            ctx.violation("reader_crashed_harness", f"exiting-child session failed: {e!r}", case)
+            continue
+        ctx.count("sessions")
+        ctx.count("exiting_child_sessions")
+        got = [norm_any(m) for m in out["read"]]
+        want = [norm_any(w) for w in wires]
+        if got != want:
+            ctx.violation("message_lost" if len(got) < len(want) else "message_invented_or_duplicated",
+                          f"the child wrote {len(want)} messages ({len(stream)} bytes, read in pieces of {chunk or len(stream)}) and "
+                          f"exited; the read stream carried {len(got)} of them", case)
+        ctx.record(case, shape=len(got), nontrivial=True, cls="exiting_child", sample={"case": case, "delivered": len(got)})
     # many notifications while nobody reads client.notifications (the best-effort side stream fills up at 100):
     # the main read stream must still carry every message
     for k, n_notes in enumerate((120, 250) if ctx.tier == "quick" else (101, 120, 250, 1000)):
